@@ -408,6 +408,10 @@ class ExprMixin:
                     return [(s, PyTuple(a.items + b.items))]
                 if isinstance(a, PyList) and isinstance(b, PyList):
                     return [(s, PyList(a.items + b.items))]
+                if isinstance(a, (PyList, PyComp)) and isinstance(b, (PyList, PyComp)):
+                    # concatenation of lists known element-wise / by length: only the LENGTH of the result is modelled (elements: some nodes)
+                    ln = lambda x: z3.IntVal(len(x.items)) if isinstance(x, PyList) else x.length       # noqa: E731
+                    return [(s, PyComp(z3.simplify(ln(a) + ln(b)), fresh("cat_j", z3.IntSort()), PyObj("AnyNode", {}, ident=fresh("id_cat", z3.IntSort()))))]
                 if is_seq(a) and is_seq(b) and a.sort() == b.sort():
                     return [(s, z3.Concat(a, b))]
                 if isinstance(a, PyLit) and isinstance(b, PyLit):
@@ -645,6 +649,32 @@ class ExprMixin:
                 else:
                     raise Unsupported("filtered comprehension over Python-side list")
             return [(st, PyList(out))]
+        if it is NONE:
+            self.vc(st, z3.BoolVal(False), "safety", f"`{ast.unparse(g.iter)[:40]}` is not None where it is iterated (TypeError)", e.lineno)
+            return [(st, Exc("TypeError", e.lineno, "iteration over None"))]
+        if isinstance(it, PyComp):
+            # [f(x) for x in <list known element-wise> (if c(x))]: element-wise again; with a filter only the bound on the length is kept
+            j2 = fresh("cj", z3.IntSort())
+            elem = it.at(j2)
+            alts = [(None, elem)] if not isinstance(elem, PyUnion) else [(k, a) for k, a in enumerate(elem.alts)]
+            outs = []
+            for k, a in alts:
+                s2 = st.clone()
+                s2.assume(z3.And(j2 >= 0, j2 < it.length))
+                if k is not None:
+                    s2.assume(elem.kind == k)
+                r0 = self.assign_target(g.target, s2._memo.get(id(a), a) if not is_z3(a) else a, s2, e)
+                if isinstance(r0, Exc):
+                    raise Unsupported("comprehension target does not fit the element")
+                for c in g.ifs:
+                    self.eval1(c, s2)          # evaluated for its safety obligations; which elements pass is not modelled
+                outs.append(self.eval1(e.elt, s2))
+            if g.ifs:
+                k2 = fresh("kept", z3.IntSort())
+                st.assume(z3.And(k2 >= 0, k2 <= it.length))
+                return [(st, PyComp(k2, fresh("fj", z3.IntSort()), PyObj("AnyNode", {}, ident=fresh("id_kept", z3.IntSort()))))]
+            elt = outs[0] if len(outs) == 1 else PyUnion(elem.kind, outs)
+            return [(st, PyComp(it.length, j2, elt))]
         if not is_seq(it) or g.ifs:
             raise Unsupported("comprehension over " + type(it).__name__)
         j = fresh("cj", z3.IntSort())
